@@ -536,8 +536,10 @@ Type help or ? to list commands.
         except EvalError as e:
             print('Eval error:', e)
             return
-        except (CompileError, ArithmeticError, ValueError) as e:
-            # ill-typed expression, overflow, division by zero...
+        except (CompileError, ArithmeticError, ValueError,
+                InternalError) as e:
+            # ill-typed expression, overflow, division by zero, or a
+            # node the evaluator cannot evaluate (e.g. a function call)
             print('Eval error:', str(e) or type(e).__name__)
             return
 
